@@ -22,6 +22,7 @@ import (
 func init() { register("schedlazy", schedLazyMain) }
 
 type slTrial struct {
+	LeftEnd int `json:"leftend"` // once trials: Left() after every goroutine saw the end
 	LeftNeg int `json:"leftneg"` // unlimited trials: Left() answers that were negative
 	LeftAll int `json:"leftall"` // unlimited trials: Left() calls made
 	Ok    int   `json:"ok"`    // tokens handed out
@@ -91,7 +92,7 @@ func schedLazyMain(args []string) {
 		atomic.StoreInt32(&gate, 1)
 		wg.Wait()
 		after := time.Now()
-		t := slTrial{}
+		t := slTrial{LeftEnd: s.Left()}
 		seen := map[int64]bool{}
 		var lo, hi time.Time
 		first := true
